@@ -62,6 +62,8 @@ type c15Case struct {
 	Binary bool         `json:"binary"`
 	Stream string       `json:"stream"`
 	Prefix int          `json:"prefix"`
+	// Overlap: a second, idle client is connected while this one disconnects
+	Overlap bool `json:"overlap"`
 }
 
 // quiesce waits until the fakes' open connections and the goroutine count are
@@ -85,7 +87,78 @@ func c15Quiesce(st *stack.Stack, baseL1, baseL2, baseG int, limit time.Duration)
 	}
 }
 
+// runC15Overlap: a second client B is accepted (and stays silent) after A
+// connected and before A sends anything; A then sends the prefix and vanishes.
+// Exactly A's backend connections must go away, B must still be served by its
+// own, and after B leaves everything is released.
+func runC15Overlap(c c15Case, st *stack.Stack, stream []byte, baseL1, baseL2, baseG int) string {
+	accepts := func() (int, int) {
+		a2 := 0
+		if st.L2 != nil {
+			a2 = st.L2.Accepts()
+		}
+		return st.L1.Accepts(), a2
+	}
+	waitAcc := func(w1, w2 int) {
+		for i := 0; i < 20000; i++ {
+			g1, g2 := accepts()
+			if g1 >= w1 && (st.L2 == nil || g2 >= w2) {
+				return
+			}
+			time.Sleep(100 * time.Microsecond)
+		}
+	}
+	a1, a2 := accepts()
+	connA := st.Dial(c.Port)
+	waitAcc(a1+1, a2+1)
+	connB := st.Dial(c.Port)
+	waitAcc(a1+2, a2+2)
+	if c.Prefix > 0 {
+		connA.Write(stream[:c.Prefix])
+	}
+	connA.Close()
+	// A's backend connections (one per tier) must be closed, B's must stay
+	deadline := time.Now().Add(10 * time.Second)
+	for {
+		l1 := st.L1.OpenConns()
+		l2 := 0
+		if st.L2 != nil {
+			l2 = st.L2.OpenConns()
+		}
+		wantL2 := baseL2
+		if st.L2 != nil {
+			wantL2 = baseL2 + 1
+		}
+		if l1 == baseL1+1 && l2 == wantL2 {
+			break
+		}
+		if time.Now().After(deadline) {
+			connB.Close()
+			return fmt.Sprintf("with a second, idle client connected: 10s after client A closed at byte %d, L1 has %d open backend connections (want %d: only B's), L2 %d (want %d)", c.Prefix, l1, baseL1+1, l2, wantL2)
+		}
+		time.Sleep(200 * time.Microsecond)
+	}
+	clB := wire.NewClient(connB, true)
+	clB.Timeout = 10 * time.Second
+	v := mkValue(uint32(c.Prefix), 25)
+	o1, e1 := clB.Do(wire.Cmd{Kind: wire.Set, Key: "kov", Value: v, Flags: 3})
+	o2, e2 := clB.Do(wire.Cmd{Kind: wire.Get, Keys: []string{"kov"}})
+	clB.Close()
+	if e1 != nil || e2 != nil || o1.Class != wire.OK || len(o2.Hits) != 1 || string(o2.Hits[0].Value) != string(v) {
+		return fmt.Sprintf("the idle client B was not served correctly after client A disconnected at byte %d: set %v %s / get %v %s", c.Prefix, e1, o1, e2, o2)
+	}
+	if held := c15Quiesce(st, baseL1, baseL2, baseG, 10*time.Second); held != "" {
+		if held2 := c15Quiesce(st, baseL1, baseL2, baseG, 20*time.Second); held2 != "" {
+			return "after both clients left: " + held2
+		}
+	}
+	return ""
+}
+
 func runC15(c c15Case, st *stack.Stack, stream []byte, baseL1, baseL2, baseG int) string {
+	if c.Overlap {
+		return runC15Overlap(c, st, stream, baseL1, baseL2, baseG)
+	}
 	a1, a2 := st.L1.Accepts(), 0
 	if st.L2 != nil {
 		a2 = st.L2.Accepts()
@@ -214,10 +287,14 @@ func TestC15(t *testing.T) {
 						continue // quick: thin out the middle of large values
 					}
 					c := c15Case{Cfg: cc.Cfg, Port: cc.Port, Binary: binary, Stream: s.Name, Prefix: p}
+					c.Overlap = p%5 == 2 || p == 0 // a fifth of the prefixes (and the empty one) run with an overlapping idle client
 					msg := runC15(c, st, stream, baseL1, baseL2, baseG)
 					cases++
+					if c.Overlap {
+						rec.Class("with-overlapping-idle-client")
+					}
 					nt := !isBound[p] || (strings.HasPrefix(s.Name, "quiet") && p > 0 && p < len(stream))
-					rec.Case(nt, fmt.Sprintf("%s|%d|%v|%s|%d", cc.Cfg, cc.Port, binary, s.Name, p), "stream:"+s.Name)
+					rec.Case(nt, fmt.Sprintf("%s|%d|%v|%s|%d|%v", cc.Cfg, cc.Port, binary, s.Name, p, c.Overlap), "stream:"+s.Name)
 					if msg != "" {
 						rp := rec.Violation("TestC15Replay", c)
 						t.Errorf("C15 %s port %d bin=%v stream %s (%d bytes) prefix %d: %s; replay %s", cc.Cfg, cc.Port, binary, s.Name, len(stream), p, msg, rp)
